@@ -131,6 +131,13 @@ _EVChargerDataMethods: dict[ComponentMetricId, Callable[[EVChargerData], float]]
     ],
 }
 
+_DATA_METHODS_BY_CATEGORY: dict[ComponentCategory, Any] = {
+    ComponentCategory.METER: _MeterDataMethods,
+    ComponentCategory.BATTERY: _BatteryDataMethods,
+    ComponentCategory.INVERTER: _InverterDataMethods,
+    ComponentCategory.EV_CHARGER: _EVChargerDataMethods,
+}
+
 
 class MicrogridApiSource:
     """Fetches requested metrics from the Microgrid API.
@@ -477,6 +484,19 @@ class MicrogridApiSource:
 
         if category is None:
             _logger.error("Unknown component ID: %d in request %s", comp_id, request)
+            return
+
+        # A request for a metric that the component doesn't provide can't be served,
+        # and must not get in the way of the valid requests for the same component.
+        known_metrics = _DATA_METHODS_BY_CATEGORY.get(category)
+        if known_metrics is not None and request.metric_id not in known_metrics:
+            _logger.error(
+                "Unknown metric %s for %s id %d in request %s",
+                request.metric_id,
+                category.name,
+                comp_id,
+                request,
+            )
             return
 
         self._req_streaming_metrics.setdefault(comp_id, {}).setdefault(
